@@ -235,6 +235,9 @@ func (e *Exec) checkDirectory(when string) {
 	if len(data) > 1 {
 		e.failD("stale-files", map[string]string{"symptom": "stale-files"}, "directory holds %d data files %s: %v (superseded files must disappear once nothing references them)", len(data), when, data)
 	}
+	if len(data) == 0 && e.lb > 0 && e.lb < len(e.hist.Models) && e.hist.Models[e.lb].TotalKeys() > 0 {
+		e.failD("live-file-removed", map[string]string{"symptom": "live-file-removed"}, "directory holds no data file %s although the store had exposed %d live keys (the current data file must stay)", when, e.hist.Models[e.lb].TotalKeys())
+	}
 }
 
 // ---------------------------------------------------------------------------
